@@ -59,6 +59,7 @@ unsigned g_kfault_pct = 0;
 std::map<std::string, uint64_t> g_kfaults_fired;
 const int FAKE_FD_URANDOM = 1000, FAKE_FD_RANDOM = 1001;
 int g_open_fds = 0;
+uint64_t g_read_from_non_device = 0;
 int g_urandom_state = 0; // 0 present, 1 missing (ENOENT), 2 present but not a character device: the library must fall back to /dev/random
 bool g_fd_open[2] = {false, false}; // simulated descriptor table: a closed descriptor is EBADF, as in a real kernel
 
@@ -114,6 +115,7 @@ int h_open(const char *path, int flags, mode_t) {
 ssize_t h_read(int fd, void *buf, size_t n) {
     if (fd != FAKE_FD_URANDOM && fd != FAKE_FD_RANDOM) { errno = EBADF; return -1; }
     if (!g_fd_open[fd - FAKE_FD_URANDOM]) { g_kfaults_fired["read_on_closed_fd"]++; errno = EBADF; return -1; }
+    if (fd == FAKE_FD_URANDOM && g_kernel_mode && g_urandom_state == 2) g_read_from_non_device++; // what sits at /dev/urandom is an ordinary file
     if (!g_kernel_mode) { AMB.hit("read_dev_random"); AMB.rng.fill(buf, n); return (ssize_t) n; }
     if (g_kfault_pct && g_kfault.below(100) < g_kfault_pct) {
         unsigned c = (unsigned) g_kfault.below(4);
@@ -257,20 +259,29 @@ struct Exec {
             g_child_kernel_salt = 0x5a;
             g_term_armed = 0; g_pid_offset = 1; // in the child a sodium_misuse() really ends the process
             signal(SIGABRT, SIG_DFL);
+            // the application survives the library's refusal (a misuse handler that unwinds) and simply tries again
             unsigned char b[32];
-            memset(b, prefill, sizeof b);
-            { LibScope l; randombytes_buf(b, sizeof b); }
-            if (write(pfd[1], b, sizeof b) != (ssize_t) sizeof b) _exit(9);
-            _exit(0);
+            for (int attempt = 0; attempt < 3; attempt++) {
+                memset(b, prefill, sizeof b);
+                if (sigsetjmp(g_term_env, 1) == 0) {
+                    g_term_armed = 1;
+                    { LibScope l; randombytes_buf(b, sizeof b); }
+                    g_term_armed = 0;
+                    if (write(pfd[1], b, sizeof b) != (ssize_t) sizeof b) _exit(9);
+                    _exit(0);
+                }
+                g_term_armed = 0; simos_reset_thread(); (void) sodium_crit_leave();
+            }
+            _exit(7); // refused every time
         }
         close(pfd[1]);
-        o.out.assign(32, prefill);
-        { LibScope l; randombytes_buf(o.out.data(), 32); }
+        o.out.assign(64, prefill);
+        { LibScope l; randombytes_buf(o.out.data(), 32); randombytes_buf(o.out.data() + 32, 32); }
         unsigned char cb[32]; ssize_t got = read(pfd[0], cb, sizeof cb);
         close(pfd[0]);
         int st = 0; waitpid(pid, &st, 0);
         res.count(WIFEXITED(st) && WEXITSTATUS(st) == 0 ? "probe.fork_child_drew" : "probe.fork_child_refused_to_continue");
-        if (WIFEXITED(st) && WEXITSTATUS(st) == 0 && got == 32 && memcmp(cb, o.out.data(), 32) == 0)
+        if (WIFEXITED(st) && WEXITSTATUS(st) == 0 && got == 32 && (memcmp(cb, o.out.data(), 32) == 0 || memcmp(cb, o.out.data() + 32, 32) == 0))
             o.invalid = "generator-output-repeats|fork|after fork() the child drew the same 32 bytes from the generator as the parent";
     }
 
@@ -516,7 +527,10 @@ struct Exec {
 
     Result run() {
         bool any_adversarial = false;
+        uint64_t nondev0 = g_read_from_non_device;
         SeqResult base = run_seq(mix64(plan.content_seed, 1), 0xAA, -1, 0);
+        if (g_read_from_non_device != nondev0)
+            res.fail("entropy-from-non-device", plan.pk.at("source").str(), "the random source read its entropy from /dev/urandom although that path is not a character device (an ordinary file anyone may have put there); it must fall back to /dev/random", 0);
         for (auto &kv : g_kfaults_fired) res.count("fault." + kv.first, kv.second);
         bool faults_fired = !g_kfaults_fired.empty();
         bool hard_fault_fired = g_kfaults_fired.count("read_eof") || g_kfaults_fired.count("read_eio") || g_kfaults_fired.count("getrandom_short") || g_kfaults_fired.count("getentropy_eio");
